@@ -196,9 +196,140 @@ def job_displacements():
     return {'results': res, 'encoded': loader.ENCODED, 'axioms': CTX.axiom_notes, 'label': 'displacements'}
 
 
+DRIVER = 'TidalPy/tides/modes/multilayer_modes.py'
+
+
+def _signature_of(rel, name):
+    """(parameter names, {name: default expr source}) of a module-level function, read from the current source"""
+    import ast
+    src = open(loader.repo_path(rel)).read()
+    for n in ast.parse(src).body:
+        if isinstance(n, ast.FunctionDef) and n.name == name:
+            a = n.args
+            names = [x.arg for x in a.posonlyargs + a.args]
+            defaults = dict(zip(names[len(names) - len(a.defaults):], [ast.literal_eval(d) for d in a.defaults]))
+            for x, d in zip(a.kwonlyargs, a.kw_defaults):
+                names.append(x.arg)
+                if d is not None:
+                    defaults[x.arg] = ast.literal_eval(d)
+            return names, defaults
+    raise KeyError(name)
+
+
+def _bind(names, defaults, args, kwargs):
+    out = dict(defaults)
+    for n, v in zip(names, args):
+        out[n] = v
+    out.update(kwargs)
+    return out
+
+
+def replay_driver(md):
+    """the REAL calculate_mode_response_coupled, with radial_solver and calculate_strain_stress of its module replaced by recorders: which degree and frequency does the stress/strain call
+    receive, compared with what the radial solver was given"""
+    code = (
+        "import sys, json\n"
+        "sys.modules['diffeqpy'] = None\n"
+        "import numpy as np\n"
+        "import TidalPy\n"
+        "import TidalPy.tides.modes.multilayer_modes as mm\n"
+        "import inspect\n"
+        "rec = {}\n"
+        "real_ss = mm.calculate_strain_stress\n"
+        "sig = inspect.signature(getattr(real_ss, 'py_func', real_ss))\n"
+        "def fake_rs(*a, **k):\n"
+        "    rec['rs_order_l'] = k.get('order_l', 2); rec['rs_freq'] = a[5] if len(a) > 5 else k.get('frequency')\n"
+        "    return np.ones((6, 3), dtype=np.complex128)\n"
+        "def fake_ss(*a, **k):\n"
+        "    b = sig.bind(*a, **k); b.apply_defaults()\n"
+        "    rec['ss_order_l'] = b.arguments['order_l']; rec['ss_freq'] = b.arguments['frequency']\n"
+        "    return np.zeros(1), np.zeros(1)\n"
+        "mm.radial_solver = fake_rs; mm.calculate_strain_stress = fake_ss\n"
+        "r = np.linspace(1., 3., 3)\n"
+        "pot = tuple(np.zeros((1, 1, 1), dtype=np.complex128) for _ in range(6))\n"
+        "mm.calculate_mode_response_coupled(%r, r, r * 1e10, r * 1e11, r * 1e20, r * 3000., r, np.zeros(1), np.ones(1), np.zeros(1), pot,\n"
+        "    lambda w, c, v: c - 1j / (v * w), (True,), (False,), (np.ones(3, dtype=bool),), force_mode_calculation=True, order_l=%d, planet_bulk_density=3000.)\n"
+        "print('@@RESULT@@' + json.dumps(rec, default=float))\n")
+    L = int(md.get('order_l', 3) or 3)
+    if L < 2:
+        L = 3
+    w = 2.0e-5
+    import subprocess, tempfile, json
+    with tempfile.TemporaryDirectory(prefix='verif_c15_') as td:
+        env = dict(os.environ, PYTHONPATH=solve.REPO)
+        p = subprocess.run([replay.VENV_PY, '-c', code % (w, L)], capture_output=True, text=True, cwd=td, env=env, timeout=600)
+    if '@@RESULT@@' not in p.stdout:
+        return False, 'driver replay failed: %s' % p.stderr[-400:]
+    rec = json.loads(p.stdout.split('@@RESULT@@')[-1])
+    bad = rec.get('ss_order_l') != L or rec.get('rs_order_l') != L or rec.get('ss_freq') != w or rec.get('rs_freq') != w
+    return bad, 'real calculate_mode_response_coupled(order_l=%d, frequency=%g): radial_solver received order_l=%r frequency=%r, calculate_strain_stress received order_l=%r frequency=%r' % (
+        L, w, rec.get('rs_order_l'), rec.get('rs_freq'), rec.get('ss_order_l'), rec.get('ss_freq'))
+
+
+def job_driver():
+    """call site: the per-mode driver hands calculate_strain_stress the radial functions it just solved, for the SAME degree, frequency, radii and moduli (otherwise the tractions of the
+    returned stresses do not reproduce the returned y2, y4: sigma_rr = y2 U is a degree-l identity)"""
+    names, defaults = _signature_of('TidalPy/tides/multilayer/stress_strain.py', 'calculate_strain_stress')
+    rs_names, rs_defaults = None, None
+    rec = {}
+    Ytok = obj_array([Q.csym('Y%d' % i) for i in range(2)])
+
+    def radial_solver(*a, **k):
+        rec['rs'] = (a, k)
+        return Ytok
+
+    def strain_stress(*a, **k):
+        rec['ss'] = _bind(names, defaults, a, k)
+        return 'STRAINS', 'STRESSES'
+    fns, ns = loader.load_py(DRIVER, ['calculate_mode_response_coupled'], {'np': NP, 'radial_solver': radial_solver, 'calculate_strain_stress': strain_stress})
+    w = Q.sym('mode_frequency')
+    Lsym = z3.Int('order_l')
+    radius = obj_array([Q.sym('r%d' % i) for i in range(2)])
+    shear = obj_array([Q.sym('mu%d' % i) for i in range(2)])
+    bulk = obj_array([Q.sym('K%d' % i) for i in range(2)])
+    visc = obj_array([Q.sym('eta%d' % i) for i in range(2)])
+    comp = obj_array([Q.csym('J%d' % i) for i in range(2)])
+    pot = tuple('POT%d' % i for i in range(6))
+    lon, col, tim = obj_array([Q.sym('lon')]), obj_array([Q.sym('col')]), obj_array([Q.sym('t')])
+
+    class LTok:
+        """the degree as an opaque value carrying the z3 integer"""
+        def __init__(self, z):
+            self.z = z
+    L = LTok(Lsym)
+    out = fns['calculate_mode_response_coupled'](w, radius, shear, bulk, visc, obj_array([Q.sym('rho')] * 2), obj_array([Q.sym('g')] * 2), lon, col, tim, pot,
+                                                 lambda *a: comp, (True,), (False,), ('IDX',), force_mode_calculation=True, order_l=L, planet_bulk_density=Q.sym('rhob'))
+    ss = rec['ss']
+    a, k = rec['rs']
+
+    def as_int(v):
+        return v.z if isinstance(v, LTok) else z3.IntVal(int(v))
+    A = [Lsym >= 2, w.re > 0]
+    shears_out = out[3]
+    conds = {
+        'order_l': as_int(ss['order_l']) == Lsym,
+        'order_l given to radial_solver': as_int(k.get('order_l', 2)) == Lsym,
+        'frequency': eq_goal(Q.of(ss['frequency']), w) if isinstance(ss['frequency'], (Q, int, float, Fr)) else z3.BoolVal(False),
+        'frequency given to radial_solver': eq_goal(Q.of(a[5]), w) if len(a) > 5 and isinstance(a[5], (Q, int, float, Fr)) else z3.BoolVal(False),
+        'radial functions': z3.BoolVal(ss['tidal_solution_y'] is Ytok),
+        'radius array': z3.BoolVal(ss['radius_array'] is radius and a[0] is radius),
+        'complex shear': z3.BoolVal(ss['shear_moduli'] is a[1] and ss['shear_moduli'] is shears_out),
+        'bulk modulus': z3.BoolVal(ss['bulk_moduli'] is bulk and a[2] is bulk),
+        'grids': z3.BoolVal(ss['longitude_array'] is lon and ss['colatitude_array'] is col and ss['time_array'] is tim),
+        'potential tuple order': z3.BoolVal(tuple(ss[n] for n in names[:6]) == pot),
+        'returned radial functions / stresses': z3.BoolVal(out[4] is Ytok and out[1] == 'STRAINS' and out[2] == 'STRESSES'),
+    }
+    res = []
+    for nm, g in conds.items():
+        res.append(discharge(Obligation('calculate_mode_response_coupled: calculate_strain_stress receives the same %s as the caller / radial_solver (for every degree l >= 2 and frequency > 0)' % nm,
+                                        g, A, with_axioms=False, with_dens=False, replay=replay_driver, key='driver:%s' % nm.split()[0])))
+    res.append(reach_twin('C15 driver', A, with_axioms=False, with_dens=False))
+    return {'results': res, 'encoded': loader.ENCODED, 'label': 'driver call site'}
+
+
 def main():
     ls = range(2, 11) if TIER == 'thorough' else (2, 3)
-    jobs = [(job, {'l': l}) for l in ls] + [(job_displacements, {})]
+    jobs = [(job, {'l': l}) for l in ls] + [(job_displacements, {}), (job_driver, {})]
     meta = {
         'explanation': 'calculate_strain_stress, calculate_volumetric_heating and calculate_displacements are executed from the current source on a %dx%dx%dx%d grid of distinct complex symbols '
                        '(y1..y6, mu, K complex; the potential values free except for the degree-l Laplace identity, which defines U_theta_theta). z3 decides Hooke\'s law component-wise, the three radial '
